@@ -167,11 +167,11 @@ def applyTarget (L : LogicData) (s : SState) (r : RuleId) (st : Step) : Option S
         | _, _ => none
       let own : BranchH :=
         match t'[bi]? with
-        | some bn => { afterApply L r st (h.upd L b bn) with lastSerial := ls }
+        | some bn => afterApply L r st (({ h with lastSerial := ls } : BranchH).upd L b bn)
         | none => h
       some { s with
         tab := t'
-        hs := s.hs.set bi own ++ (t'.drop s.tab.length).map (fun bn => { h.upd L b bn with lastSerial := none }) }
+        hs := s.hs.set bi own ++ (t'.drop s.tab.length).map (fun bn => ({ h with lastSerial := none } : BranchH).upd L b bn) }
   | _, _, _ => none
 
 /-- one transition of the search model: a search (which may release cached nodes) or the application of a target.
